@@ -223,7 +223,8 @@ def _is_state_summary(prog, ci, hooks):
                       for (c, pol) in p.pc) and
                   any(n[0] == 'exit-in-loop' for n in p.notes)
                   for p in falses)
-        okt = all(not p.pc for p in trues)
+        okt = all(all(isinstance(c, App) and c.op == 'exists' and not pol
+                      for (c, pol) in p.pc) for p in trues)
         if okf and okt:
             return 'children'
     return 'unknown'
